@@ -2,6 +2,7 @@ package datatypes
 
 import (
 	"encoding/json"
+	"fmt"
 	"github.com/orda-io/orda/client/pkg/errors"
 	"github.com/orda-io/orda/client/pkg/iface"
 	"github.com/orda-io/orda/client/pkg/model"
@@ -217,7 +218,7 @@ func (its *TransactionDatatype) ExecuteRemoteTransactionWithCtx(
 	transaction []*model.Operation,
 	currentTxCtx *TransactionContext,
 	obtainList bool,
-) ([]interface{}, errors.OrdaError) {
+) (opList []interface{}, oErr errors.OrdaError) {
 	// every operation is decoded before the unit is begun: a unit that cannot be decoded applies nothing.
 	ops := make([]iface.Operation, 0, len(transaction))
 	for _, modelOp := range transaction {
@@ -238,13 +239,17 @@ func (its *TransactionDatatype) ExecuteRemoteTransactionWithCtx(
 		}
 		txCtx = its.BeginTransaction(txOp.GetBody().Tag, currentTxCtx, false)
 		defer func() {
+			if r := recover(); r != nil {
+				// a member that decodes but cannot be executed fails the unit as a whole: what was applied of it is rolled back.
+				its.SetTransactionFail()
+				opList, oErr = nil, errors.DatatypeTransaction.New(its.L(), fmt.Sprintf("fail to execute the received unit: %v", r))
+			}
 			if err := its.EndTransaction(txCtx, false, false); err != nil {
 				// _ = log.OrdaError(err)
 			}
 		}()
 		ops = ops[1:]
 	}
-	var opList []interface{}
 	for _, op := range ops {
 		if obtainList {
 			opList = append(opList, op.ToJSON())
